@@ -25,9 +25,12 @@ type concProfile struct {
 	farBlocks                                                                       float64 // probability of a layout with rows in blocks 128 and 129 (same latch shards as 0 and 1)
 	stableRows                                                                      [2]int
 	linkDelay                                                                       int
-	indexers                                                                        int  // threads creating bitmap indexes on the primary beside the writers
-	filterReaders                                                                   int  // reader threads running filter chains + Range beside the writers (C04 part B)
-	schemaSorts, schemaTriggers                                                     bool // the schema thread also creates sorted indexes / creates and drops triggers
+	indexers                                                                        int     // threads creating bitmap indexes on the primary beside the writers
+	filterReaders                                                                   int     // reader threads running filter chains + Range beside the writers (C04 part B)
+	schemaSorts, schemaTriggers                                                     bool    // the schema thread also creates sorted indexes / creates and drops triggers
+	nearlyFull                                                                      float64 // probability of a layout whose last block is (nearly) full (default 0.25)
+	stall                                                                           float64 // probability of a stall fault (default 0.25)
+	ghost                                                                           float64 // probability of a run with the unmodelled column "ghost" that a schema thread drops (and re-creates) beside the writers
 }
 
 // genConc materialises a concurrent case: set-up transactions creating the stable rows,
@@ -103,13 +106,28 @@ func genConc(prop string, seed uint64, run int, p concProfile, av avoid) *Case {
 			nStable = len(cand)
 		}
 		pf.Survivors = append(pf.Survivors, cand[:nStable]...)
-		if r.Chance(0.25) && !p.replicas {
+		nf := 0.25
+		if p.nearlyFull > 0 {
+			nf = p.nearlyFull
+		}
+		if r.Chance(nf) && !p.replicas {
 			// last block nearly full: concurrent inserts cross into a block that does not exist yet
 			b := blocks - 1
 			pf.KeepFull = []int{b}
 			pf.Holes = []uint32{uint32(b)<<14 + 16383}
 			if r.Chance(0.5) {
 				pf.Holes = append(pf.Holes, uint32(b)<<14+16000)
+			}
+			if p.nearlyFull > 0 {
+				// every block below is full too (otherwise the inserts land in the free slots of the
+				// sparse blocks and never reach a new block)
+				pf.KeepFull = nil
+				for k := 0; k <= b; k++ {
+					pf.KeepFull = append(pf.KeepFull, k)
+				}
+				if r.Chance(0.7) {
+					pf.Holes = nil // exactly full: the very first insert opens the next block
+				}
 			}
 		}
 	}
@@ -439,7 +457,67 @@ func genConc(prop string, seed uint64, run int, p concProfile, av avoid) *Case {
 	if p.replicas {
 		cs.Threads = append(cs.Threads, ThreadProg{Role: "applier"})
 	}
+	// schema change beside writers: an extra column "ghost" that the model does not hold.
+	// Writers store into it right after a modelled store to the same row (only while it
+	// exists: a store to a missing column panics by contract); a schema thread drops it, and
+	// possibly re-creates and drops it again, so that transactions commit with a buffer whose
+	// column is gone. Own PRNG stream.
+	if gr := NewRng(seed, uint64(run), 78); p.ghost > 0 && !p.replicas && gr.Chance(p.ghost) {
+		cs.Cfg.Params["ghost"] = 1
+		for ti := range cs.Threads {
+			if cs.Threads[ti].Role != "writer" {
+				continue
+			}
+			for xi := range cs.Threads[ti].Txns {
+				for oi := range cs.Threads[ti].Txns[xi].Ops {
+					if op := &cs.Threads[ti].Txns[xi].Ops[oi]; op.Kind == "at" && len(op.Writes) > 0 && gr.Chance(0.7) {
+						op.Ghost = true
+					}
+				}
+			}
+		}
+		t := TxnProg{Ops: []Op{{Kind: "dropghost"}}}
+		if gr.Chance(0.4) {
+			t.Ops = append(t.Ops, Op{Kind: "mkghost"}, Op{Kind: "dropghost"})
+		}
+		cs.Threads = append(cs.Threads, ThreadProg{Role: "indexer", Txns: []TxnProg{t}})
+	}
+	// buggify: in half of the runs the mutex points of the instrumented build do not yield
+	// (unless the mutex is held), so the coarse interleavings of the hand-placed hooks keep
+	// their share of the budget. Own PRNG stream.
+	if NewRng(seed, uint64(run), 79).Chance(0.5) {
+		cs.Muted = append(cs.Muted, int(ptMuLock))
+	}
+	// fault "slow node": one thread is stalled for a number of scheduler steps at a protocol
+	// point, so that whole transactions of the others fall into a window that is normally a
+	// few steps wide (a snapshot between opening its recorder and closing it, a commit
+	// between two of its blocks or while it holds a latch). Own PRNG stream: the rest of the
+	// case does not depend on whether a stall was drawn.
+	sr := NewRng(seed, uint64(run), 77)
+	if sr.Chance(p.stallRate()) {
+		type site struct {
+			role string
+			at   uint8
+			arg  int
+		}
+		var sites []site
+		if p.snapshots > 0 {
+			// recorder opened / before a block is read (the block count is fixed by then) / state
+			// written, recorder still open (twice the weight) / recorder closed, log not yet copied
+			sites = append(sites, site{"snapshot", 9, 2}, site{"snapshot", 1, 0}, site{"snapshot", 9, 3}, site{"snapshot", 9, 3}, site{"snapshot", 9, 4})
+		}
+		sites = append(sites, site{"", 2, 0}, site{"", 3, 0}, site{"", 6, 0}, site{"", 4, 0}, site{"", 7, 0})
+		st := sites[sr.Intn(len(sites))]
+		cs.Faults = append(cs.Faults, Fault{Kind: "stall", Role: st.role, At: int(st.at), Arg: st.arg, N: sr.Range(4, 60)})
+	}
 	return cs
+}
+
+func (p concProfile) stallRate() float64 {
+	if p.stall > 0 {
+		return p.stall
+	}
+	return 0.25
 }
 
 // genTTL materialises a C17 case: stable rows, writer threads that set and extend
@@ -637,6 +715,9 @@ func genRace(seed uint64, run int) *Case {
 	cs.Steps = []Step{{Kind: "txn", Txn: setup}}
 	cs.Strategy = []string{"uniform", "sticky", "rr"}[r.Intn(3)]
 	cs.SchedSeed = r.Uint64()
+	if NewRng(seed, uint64(run), 79).Chance(0.5) {
+		cs.Muted = append(cs.Muted, int(ptMuLock))
+	}
 	colName := func() string { return vc[r.Intn(len(vc))].Name }
 	anyName := func() string {
 		if len(g.indexes) > 0 && r.Chance(0.5) {
